@@ -4,7 +4,7 @@ triggers: operator, identifiers, constants).  A validation that disappears from 
 preamble byte then reaches a shift amount, an allocation size or an index unchecked."""
 import json
 import os
-from astu import C, ctxt, gt_pair, eq_const, strip, walk, txt, short, functions_by, always_throws, stmts_of
+from astu import C, ctxt, gt_pair, eq_const, reach, reach_txt, ctext, strip, walk, txt, short, functions_by, always_throws, stmts_of
 from vlib.core import ob, VERIF
 import triggers
 
@@ -23,9 +23,84 @@ def throwers(fns):
     return res
 
 
+_PV = {}
+
+
+def is_pure_validator(fn, by_pat, depth=0):
+    """the body consists only of `if (cond) throw` guards, calls of other pure validators / check_* functions, declarations of
+    locals and a plain return: such a helper is equivalent to its guards written at the call site, whatever it is called"""
+    if fn is None or fn.get("body") is None or depth > 3:
+        return False
+    key = id(fn)
+    if key in _PV:
+        return _PV[key]
+    _PV[key] = False
+    n_guard = 0
+    for s in stmts_of(fn["body"]):
+        k = s.get("k")
+        if k == "If" and s.get("e") is None and always_throws(s.get("t")):
+            n_guard += 1
+        elif k == "Expr" and isinstance(strip(s.get("e")), dict) and strip(s["e"]).get("k") == "Call":
+            c = strip(s["e"])
+            cal = by_pat.get(c.get("cpat"))
+            if cal is not None and is_pure_validator(cal, by_pat, depth + 1):
+                n_guard += 1
+            else:
+                return False
+        elif k == "Decl":
+            continue
+        elif k == "Return" and s.get("e") is None:
+            continue
+        else:
+            return False
+    _PV[key] = n_guard > 0
+    return _PV[key]
+
+
+def inlined_guards(fn, by_pat, env=None, depth=0):
+    """(condition node, env) of every `if (cond) throw` guard of fn, including those of pure-validator helpers it calls with the
+    helper's parameters bound to the caller's arguments; plus ("call", name) for calls of check_* functions that are not pure"""
+    env = env if env is not None else triggers.flat_env(fn)
+    out = []
+
+    def v(n):
+        if n.get("k") == "Call" and n.get("cpat"):
+            cal = by_pat.get(n["cpat"])
+            if cal is not None and cal is not fn and depth < 3 and is_pure_validator(cal, by_pat) and len(cal["params"]) == len(n.get("args", [])):
+                cenv = dict(triggers.flat_env(cal))
+                for p, a in zip(cal["params"], n["args"]):
+                    cenv[p["d"]] = ("expr", a, env)
+                out.extend(inlined_guards(cal, by_pat, cenv, depth + 1))
+                return
+            if (n.get("cname") or "").lower().startswith(("check", "validate")) and cal is not None:
+                hit = [False]
+                walk(cal.get("body"), lambda x: hit.__setitem__(0, True) if x.get("k") == "Throw" else None)
+                if hit[0]:
+                    out.append(("call", n["cname"]))
+        if n.get("k") == "If" and always_throws(n.get("t")) and n.get("e") is None:
+            out.append((n["c"], env))
+    walk(fn["body"], v)
+    return out
+
+
+def guard_item(c, env):
+    c = strip(c)
+    t = txt(c)
+    if "good()" in t or "fail()" in t:
+        return None
+    if c.get("k") == "Bin" and c.get("op") in triggers.FLIP:
+        op, ids, consts, text = triggers.parts(c, env)
+        return "guard:%s|%s|%s" % (op, ",".join(ids), ",".join(str(x) for x in consts))
+    ids, consts = [], []
+    triggers.idc(c, env, ids, consts)
+    return "guard:complex|%s|%s" % (",".join(sorted(str(i) for i in ids if i)), ",".join(str(x) for x in sorted(consts, key=lambda x: (str(type(x)), x))))
+
+
 def inventory(facts):
     fns = functions_by(facts)
-    th = throwers(fns)
+    by_pat = {}
+    for pat, fn in fns.items():
+        by_pat[fn["pat"]] = fn
     inv = {}
     for pat, fn in sorted(fns.items()):
         if fn["name"] not in READER_NAMES or fn["ret"] == "void" or not fn["params"]:
@@ -36,24 +111,13 @@ def inventory(facts):
             continue
         key = "%s(%s)" % (short(fn["patq"]), kind)
         items = []
-        env = triggers.canon_env(fn)
-
-        def v(n):
-            if n.get("k") == "Call" and n.get("cpat") in th and (n.get("cname") or "").lower().startswith(("check", "validate")):
-                items.append("call:%s" % n["cname"])
-            if n.get("k") == "If" and always_throws(n.get("t")) and n.get("e") is None:
-                c = strip(n["c"])
-                t = txt(c)
-                if "good()" in t or "fail()" in t:
-                    return
-                if c.get("k") == "Bin" and c.get("op") in triggers.FLIP:
-                    op, ids, consts, text = triggers.parts(c, env)
-                    items.append("guard:%s|%s|%s" % (op, ",".join(ids), ",".join(str(x) for x in consts)))
-                else:
-                    ids = []
-                    walk(c, lambda x: ids.append((env.get(x.get("d")) if x.get("k") == "Ref" else None) or x.get("n") or x.get("f") or x.get("cname")) if x.get("k") in ("Ref", "Member", "Call") else None)
-                    items.append("guard:complex|%s" % ",".join(sorted(i for i in ids if i)))
-        walk(fn["body"], v)
+        for g in inlined_guards(fn, by_pat):
+            if g[0] == "call":
+                items.append("call:%s" % g[1])
+            else:
+                it = guard_item(g[0], g[1])
+                if it:
+                    items.append(it)
         if items:
             inv[key] = {"items": sorted(items), "pat": fn["pat"], "qname": fn["qname"]}
     return inv
